@@ -615,6 +615,41 @@ func ruleKeyFrame(p *Prog, r *Result) {
 			}
 		}
 	}
+	// the rendering of a component is injective: the function that turns a group value into bytes does not print
+	// floats with a fixed number of digits (0.0000001 and 0.0000002 would share a group)
+	if conv != nil {
+		lossy := ""
+		allInstrs(conv, func(in ssa.Instruction) {
+			c, ok := in.(*ssa.Call)
+			if !ok {
+				return
+			}
+			switch p.calleeName(&c.Call) {
+			case "fmt.Sprintf", "fmt.Sprint", "fmt.Appendf":
+				if f, ok := constString(c.Call.Args[0]); ok {
+					for i := 0; i+1 < len(f); i++ {
+						if f[i] != '%' {
+							continue
+						}
+						j := i + 1
+						for j < len(f) && (f[j] == '.' || f[j] == '-' || f[j] == '+' || (f[j] >= '0' && f[j] <= '9')) {
+							j++
+						}
+						if j < len(f) && (f[j] == 'f' || f[j] == 'F' || f[j] == 'e' || f[j] == 'E' || (f[j] == 'g' && j > i+1)) {
+							lossy = fmt.Sprintf("format %q at %s", f, p.InstrPos(c))
+						}
+					}
+				}
+			case "strconv.FormatFloat", "strconv.AppendFloat":
+				// (f, fmt, prec, bitSize) / (dst, f, fmt, prec, bitSize): precision -1 is the shortest exact text
+				pi := len(c.Call.Args) - 2
+				if k, ok := constInt(c.Call.Args[pi]); !ok || k != -1 {
+					lossy = "fixed precision at " + p.InstrPos(c)
+				}
+			}
+		})
+		r.add(lossy == "", p.FName(conv)+"|float-exact", p.Pos(conv.Pos()), firstNonEmpty(map[bool]string{true: "floats are rendered with a fixed number of digits: " + lossy}[lossy != ""], "group values are rendered with all their digits (distinct floats give distinct key components)"))
+	}
 	// the same for keys written into a strings.Builder / bytes.Buffer inside a loop
 	for _, fn := range p.methodsOf(at) {
 		loops := naturalLoops(fn)
